@@ -809,6 +809,8 @@ var c05IgnoreTable = map[string]string{ // "function|callee" -> reason (one name
 	"internal/counter.debugFatalf|fmt.Fprintf":                           "debug output to stderr",
 	"internal/counter.debugPrintf|fmt.Fprintf":                           "debug output to stderr",
 	"internal/upload.Run|(*internal/upload.uploader).Close":              "closing the debug log file at the end of the run",
+	"internal/mmap.munmapFile|golang.org/x/sys/windows.CloseHandle":      "(windows) releasing the mapping handle after the view was unmapped; the error of the unmap itself is the one returned",
+	"internal/mmap.munmapFile|(*os.File).Close":                          "(windows) descriptor of a mapping being dropped: data is written through the view, nothing is buffered in the descriptor",
 }
 
 func c05ErrorsChecked(c *Ctx, m *Module, fns []*ssa.Function) {
